@@ -42,14 +42,37 @@ __status__ = "development"
 
 sigmoid = lambda x: 1./(1. + np.exp(-x))
 
+# Piecewise-linear interpolation with the semantics of numpy.interp (constant beyond both ends).
 interp = """
 def interp(x_new, x, y):
     idx = argmin(abs(x-x_new))
-    if abs(x[idx]) > abs(x_new):
+    if x[idx] > x_new:
         i1, i2 = idx-1, idx
     else:
         i1, i2 = idx, idx+1
-    return (y[i1] + y[i1])*0.5
+    if i1 < 0:
+        return y[0]
+    if i2 >= len(x):
+        return y[len(x)-1]
+    return y[i1] + (y[i2] - y[i1])*(x_new - x[i1])/(x[i2] - x[i1])
+"""
+
+# Per-column interpolation of an (N, n) input array; carries its own copy of the helper above because helper
+# definitions are emitted per operation.
+interp_rows = """
+def interp_rows(t, time, inp):
+    def _interp(x_new, x, y):
+        idx = argmin(abs(x-x_new))
+        if x[idx] > x_new:
+            i1, i2 = idx-1, idx
+        else:
+            i1, i2 = idx, idx+1
+        if i1 < 0:
+            return y[0]
+        if i2 >= len(x):
+            return y[len(x)-1]
+        return y[i1] + (y[i2] - y[i1])*(x_new - x[i1])/(x[i2] - x[i1])
+    return stack([_interp(t, time, inp[:, k]) for k in range(inp.shape[1])])
 """
 
 # Weighted sum: einsum-based, identical algebra to base_funcs.wsum but using
@@ -85,6 +108,9 @@ torch_funcs = {
     'exp': {'call': 'exp', 'func': np.exp, 'imports': ['torch.exp']},
     'sigmoid': {'call': 'sigmoid', 'func': sigmoid, 'imports': ['torch.sigmoid']},
     'interp': {'call': 'interp', 'func': np.interp, 'def': interp, 'imports': ['torch.abs', 'torch.argmin']},
+    'interp_rows': {'call': 'interp_rows',
+                    'func': lambda t, time, inp: np.array([np.interp(t, time, inp[:, k]) for k in range(inp.shape[1])]),
+                    'def': interp_rows, 'imports': ['torch.abs', 'torch.argmin', 'torch.stack']},
     'wsum':   {'call': 'wsum',   'def': wsum, 'imports': ['torch.einsum']},
     'real': {'call': 'real', 'func': np.real, 'imports': ['torch.real']},
     'imag': {'call': 'imag', 'func': np.imag, 'imports': ['torch.imag']},
